@@ -128,6 +128,7 @@ theorem natRepr_shape' (n : Nat) :
 end LineM
 open LineM
 
+/-- `int(str(n)) = n` (for texts within CPython's digit limit) -/
 theorem pyInt_natRepr (n : Nat) (h : (natRepr n).length ≤ intMaxStrDigits) : pyInt (natRepr n) = .ok (n : Int) := by
   obtain ⟨h1, h2, _⟩ := natRepr_shape' n
   rw [pyInt_digits _ h1 h2 h, natOfDigits_natRepr]
@@ -141,6 +142,7 @@ theorem pyInt_intRepr (i : Int) (h : (intRepr i).length ≤ intMaxStrDigits) : p
     rw [pyInt_neg_digits _ h1 h2 (by omega), natOfDigits_natRepr]
     rfl
 
+/-- the decimal text of a natural number: non-empty, digits only, no leading zero unless it is "0" -/
 theorem natRepr_shape (n : Nat) :
     natRepr n ≠ [] ∧ (∀ c ∈ natRepr n, isDigit c = true) ∧ (n ≠ 0 → (natRepr n).head? ≠ some '0') :=
   natRepr_shape' n
@@ -378,6 +380,326 @@ theorem atomicNumberOf_elementSyms (s : Str) (h : s ∈ elementSyms) : ∃ z : I
     simp only [hz, decide_eq_true_eq] at this
     exact ⟨z, rfl, this⟩
 
+/-! ## the writer's atom line, read back -/
+
+namespace LineM
+
+
+theorem pyFloatOk_head_false (r : Str) (c : Char) (hc : c = 'C' ∨ c = 'M' ∨ c = 'R')
+    (htok : ∀ x ∈ c :: r, isPySpace x = false) : pyFloatOk (c :: r) = false := by
+  have hstrip := strip_of_all _ htok
+  unfold pyFloatOk
+  rw [hstrip]
+  rcases hc with rfl | rfl | rfl
+  · have : Char.toLower 'C' = 'c' := by decide
+    simp [this, List.span, List.span.loop, isDigit]
+  · have : Char.toLower 'M' = 'm' := by decide
+    simp [this, List.span, List.span.loop, isDigit]
+  · have : Char.toLower 'R' = 'r' := by decide
+    simp [this, List.span, List.span.loop, isDigit]
+
+theorem split_sep_append (sep : Char) (t : Str) (h : sep ∉ t) (rest : Str) :
+    splitOnChar sep (t ++ sep :: rest) = t :: splitOnChar sep rest := by
+  induction t with
+  | nil => simp [splitOnChar]
+  | cons c r ih =>
+    have hc : (c == sep) = false := by
+      simp only [beq_eq_false_iff_ne, ne_eq]; rintro rfl; exact h (by simp)
+    have := ih (fun hm => h (by simp [hm]))
+    simp only [List.cons_append, splitOnChar, hc, Bool.false_eq_true, if_false, this]
+
+theorem split_sep_none (sep : Char) (t : Str) (h : sep ∉ t) : splitOnChar sep t = [t] := by
+  induction t with
+  | nil => simp [splitOnChar]
+  | cons c r ih =>
+    have hc : (c == sep) = false := by
+      simp only [beq_eq_false_iff_ne, ne_eq]; rintro rfl; exact h (by simp)
+    have := ih (fun hm => h (by simp [hm]))
+    simp only [splitOnChar, hc, Bool.false_eq_true, if_false, this]
+
+/-- the text before the first `=` starts with the first character of the text -/
+theorem headPiece_ne (tok : Str) (k : Char) (ks : Str) (h : tok.head? ≠ some k) :
+    (splitOnChar '=' tok).head? ≠ some (k :: ks) := by
+  cases tok with
+  | nil => simp [splitOnChar]
+  | cons c r =>
+    simp only [splitOnChar]
+    split
+    · simp
+    · cases splitOnChar '=' r with
+      | nil => simp only [List.head?_cons, ne_eq, Option.some.injEq, List.cons.injEq, not_and]
+               intro hck; exact absurd (by simp [hck]) h
+      | cons p ps =>
+        simp only [List.head?_cons, ne_eq, Option.some.injEq, List.cons.injEq, not_and]
+        intro hck; exact absurd (by simp [hck]) h
+
+theorem ok_bind {α β} (a : α) (f : α → PyM β) : ((Except.ok a : PyM α) >>= f) = f a := rfl
+
+/-- the fold inside `keywordValues`, from an arbitrary accumulator -/
+def kvFrom (key : Str) (acc : List Int) (line : List Str) : PyM (List Int) :=
+  line.foldlM (fun acc tok =>
+    if (splitOnChar '=' tok).head? == some key then do
+      let v ← afterEq tok
+      let i ← pyInt v
+      pure (acc ++ [i])
+    else pure acc) acc
+
+theorem keywordValues_eq (key : Str) (line : List Str) : keywordValues key line = kvFrom key [] line := rfl
+
+/-- the token is not a `key=…` token -/
+def Miss (key : Str) (tok : Str) : Prop := (splitOnChar '=' tok).head? ≠ some key
+
+theorem kvFrom_miss (key : Str) : ∀ (line : List Str) (acc : List Int), (∀ t ∈ line, Miss key t) →
+    kvFrom key acc line = .ok acc := by
+  intro line
+  induction line with
+  | nil => intro acc _; rfl
+  | cons t ts ih =>
+    intro acc h
+    have ht : ((splitOnChar '=' t).head? == some key) = false := by
+      simpa [Miss] using h t (by simp)
+    have := ih acc (fun x hx => h x (by simp [hx]))
+    simp only [kvFrom, List.foldlM_cons, ht, Bool.false_eq_true, if_false, pure_bind] at this ⊢
+    exact this
+
+theorem kvFrom_append (key : Str) (a b : List Str) (acc : List Int) :
+    kvFrom key acc (a ++ b) = kvFrom key acc a >>= fun acc' => kvFrom key acc' b := by
+  simp only [kvFrom, List.foldlM_append]
+
+theorem kvFrom_hit (key : Str) (v : Int) (acc : List Int) (hk : '=' ∉ key)
+    (hv : '=' ∉ intRepr v) (hlen : (intRepr v).length ≤ intMaxStrDigits) :
+    kvFrom key acc [key ++ '=' :: intRepr v] = .ok (acc ++ [v]) := by
+  have hs : splitOnChar '=' (key ++ '=' :: intRepr v) = [key, intRepr v] := by
+    rw [split_sep_append '=' key hk, split_sep_none '=' _ hv]
+  simp only [kvFrom, List.foldlM_cons, List.foldlM_nil, hs, List.head?_cons, beq_self_eq_true, if_true, afterEq,
+    getIdx, List.getElem?_cons_succ, List.getElem?_cons_zero, ok_bind, pyInt_intRepr v hlen]
+  rfl
+
+
+def sufx (ts : List Str) : Str := (ts.map (' ' :: ·)).flatten
+
+theorem sufx_nil : sufx [] = [] := rfl
+theorem sufx_cons (t : Str) (ts : List Str) : sufx (t :: ts) = ' ' :: t ++ sufx ts := by simp [sufx]
+theorem sufx_append (a b : List Str) : sufx (a ++ b) = sufx a ++ sufx b := by simp [sufx]
+
+theorem joinSp_cons : ∀ (ts : List Str) (t : Str), joinSp (t :: ts) = t ++ sufx ts := by
+  intro ts
+  induction ts with
+  | nil => intro t; simp [joinSp, sufx]
+  | cons t' ts ih =>
+    intro t
+    show t ++ ' ' :: joinSp (t' :: ts) = _
+    rw [ih t', sufx_cons]; simp
+
+theorem isToken_M : IsToken (cs "M") := by
+  refine ⟨by simp [cs], ?_⟩
+  simp only [cs, String.toList]; decide
+
+theorem isToken_V30 : IsToken (cs "V30") := by
+  refine ⟨by simp [cs], ?_⟩
+  simp only [cs]; decide
+
+theorem tokenizeLine_v30 (toks : List Str) (hne : toks ≠ []) (h : ∀ t ∈ toks, IsToken t) :
+    tokenizeLine (v30Prefix ++ joinSp toks) = cs "M" :: cs "V30" :: toks := by
+  have e : v30Prefix ++ joinSp toks = joinBlanks 0 0 (cs "M" :: cs "V30" :: toks) [1] := by
+    cases toks with
+    | nil => exact absurd rfl hne
+    | cons t ts =>
+      simp only [joinBlanks, List.headD_cons, List.tail_cons, List.replicate_zero, List.nil_append]
+      simp only [List.headD_nil, List.tail_nil]
+      rw [joinBlanks_succ 0 0 t ts [], ← joinSp_eq_joinBlanks]
+      simp [v30Prefix, cs, List.replicate]
+  rw [e]
+  apply tokenizeLine_joinBlanks
+  intro t ht
+  rcases List.mem_cons.1 ht with rfl | ht
+  · exact isToken_M
+  rcases List.mem_cons.1 ht with rfl | ht
+  · exact isToken_V30
+  · exact h t ht
+
+
+theorem cs_CHG : cs "CHG" = ['C', 'H', 'G'] := by simp [cs]
+theorem cs_MASS : cs "MASS" = ['M', 'A', 'S', 'S'] := by simp [cs]
+theorem cs_RAD : cs "RAD" = ['R', 'A', 'D'] := by simp [cs]
+
+/-- one of the three keywords the atom-line reader scans for -/
+def KeyC (key : Str) : Prop := key = cs "CHG" ∨ key = cs "MASS" ∨ key = cs "RAD"
+
+theorem keyC_chars {key : Str} (hk : KeyC key) : ∀ c ∈ key, isPySpace c = false ∧ c ≠ '=' := by
+  rcases hk with rfl | rfl | rfl
+  · rw [cs_CHG]; decide
+  · rw [cs_MASS]; decide
+  · rw [cs_RAD]; decide
+
+theorem miss_of_head {key : Str} (hk : KeyC key) (tok : Str)
+    (h : tok.head? ≠ some 'C' ∧ tok.head? ≠ some 'M' ∧ tok.head? ≠ some 'R') : Miss key tok := by
+  rcases hk with rfl | rfl | rfl
+  · rw [cs_CHG]; exact headPiece_ne tok _ _ h.1
+  · rw [cs_MASS]; exact headPiece_ne tok _ _ h.2.1
+  · rw [cs_RAD]; exact headPiece_ne tok _ _ h.2.2
+
+theorem miss_M {key : Str} (hk : KeyC key) : Miss key (cs "M") := by
+  have : splitOnChar '=' (cs "M") = [['M']] := by simp [cs, splitOnChar]
+  rcases hk with rfl | rfl | rfl
+  · rw [cs_CHG, Miss, this]; decide
+  · rw [cs_MASS, Miss, this]; decide
+  · rw [cs_RAD, Miss, this]; decide
+
+theorem intRepr_chars (v : Int) : ∀ c ∈ intRepr v, isDigit c = true ∨ c = '-' := by
+  intro c hc
+  cases v with
+  | ofNat n => exact Or.inl ((natRepr_shape' n).2.1 c hc)
+  | negSucc n =>
+    rcases List.mem_cons.1 hc with rfl | hc
+    · exact Or.inr rfl
+    · exact Or.inl ((natRepr_shape' (n + 1)).2.1 c hc)
+
+theorem intRepr_no_space (v : Int) : ∀ c ∈ intRepr v, isPySpace c = false := by
+  intro c hc
+  rcases intRepr_chars v c hc with h | rfl
+  · exact isDigit_not_space h
+  · decide
+
+theorem intRepr_no_eq (v : Int) : '=' ∉ intRepr v := by
+  intro hc
+  rcases intRepr_chars v _ hc with h | h
+  · revert h; decide
+  · revert h; decide
+
+/-- the optional `KEY=value` token of an atom line -/
+def optTok (key : Str) (o : Option Int) : List Str :=
+  match o with
+  | some v => [key ++ '=' :: intRepr v]
+  | none => []
+
+theorem optTok_isToken {key : Str} (hk : KeyC key) (o : Option Int) : ∀ t ∈ optTok key o, IsToken t := by
+  cases o with
+  | none => intro t ht; cases ht
+  | some v =>
+    intro t ht
+    simp only [optTok, List.mem_singleton] at ht
+    subst ht
+    refine ⟨by simp, ?_⟩
+    intro c hc
+    rcases List.mem_append.1 hc with h | h
+    · exact (keyC_chars hk c h).1
+    · rcases List.mem_cons.1 h with rfl | h
+      · decide
+      · exact intRepr_no_space v c h
+
+theorem optTok_miss {key key' : Str} (hk : KeyC key) (hk' : KeyC key') (hne : key.head? ≠ key'.head?)
+    (o : Option Int) : ∀ t ∈ optTok key' o, Miss key t := by
+  cases o with
+  | none => intro t ht; cases ht
+  | some v =>
+    intro t ht
+    simp only [optTok, List.mem_singleton] at ht
+    subst ht
+    rcases hk with rfl | rfl | rfl <;> rcases hk' with rfl | rfl | rfl <;>
+      first
+      | exact absurd rfl hne
+      | (simp only [cs_CHG, cs_MASS, cs_RAD]; exact headPiece_ne _ _ _ (by simp))
+
+theorem kvFrom_optTok_other {key key' : Str} (hk : KeyC key) (hk' : KeyC key') (hne : key.head? ≠ key'.head?)
+    (o : Option Int) (acc : List Int) : kvFrom key acc (optTok key' o) = .ok acc :=
+  kvFrom_miss key _ acc (optTok_miss hk hk' hne o)
+
+theorem kvFrom_optTok_same {key : Str} (hk : KeyC key) (o : Option Int) (acc : List Int)
+    (hlen : ∀ v, o = some v → (intRepr v).length ≤ intMaxStrDigits) :
+    kvFrom key acc (optTok key o) = .ok (acc ++ o.toList) := by
+  cases o with
+  | none => simp [optTok, kvFrom]; rfl
+  | some v =>
+    have := kvFrom_hit key v acc (fun h => (keyC_chars hk _ h).2 rfl) (intRepr_no_eq v) (hlen v rfl)
+    simpa [optTok] using this
+
+theorem lastNonZero_toList (o : Option Int) (h : ∀ v, o = some v → v ≠ 0) : lastNonZero o.toList = o := by
+  cases o with
+  | none => rfl
+  | some v =>
+    have := h v rfl
+    simp [lastNonZero, this]
+
+/-- element symbols: blank-free, not `*`, `D` or `T`, and never the text before `=` of a keyword token -/
+def symOk (s : Str) : Bool :=
+  s != [] && s.all (fun c => !isPySpace c) && s != ['*'] && s != ['D'] && s != ['T'] &&
+  (splitOnChar '=' s).head? != some ['C', 'H', 'G'] &&
+  (splitOnChar '=' s).head? != some ['M', 'A', 'S', 'S'] &&
+  (splitOnChar '=' s).head? != some ['R', 'A', 'D']
+
+theorem elementSyms_symOk : elementSyms.all symOk = true := by decide +kernel
+
+theorem float_head {t : Str} (ht : IsToken t) (hf : pyFloatOk t = true) :
+    t.head? ≠ some 'C' ∧ t.head? ≠ some 'M' ∧ t.head? ≠ some 'R' := by
+  cases t with
+  | nil => simp
+  | cons c r =>
+    have key : ∀ k, (k = 'C' ∨ k = 'M' ∨ k = 'R') → (c :: r).head? ≠ some k := by
+      intro k hk h
+      simp only [List.head?_cons, Option.some.injEq] at h
+      subst h
+      rw [pyFloatOk_head_false r c hk ht.2] at hf
+      cases hf
+    exact ⟨key _ (Or.inl rfl), key _ (Or.inr (Or.inl rfl)), key _ (Or.inr (Or.inr rfl))⟩
+
+
+theorem parse_eval (L : List Str) (sym X Y Z : Str) (z : Int) (chg mass rad : List Int)
+    (h3 : getIdx L 3 = .ok sym) (hstar : (sym == ['*']) = false)
+    (hdet : detectHydrogenIsotopes sym = (sym, 0)) (hz : atomicNumberOf sym = .ok z)
+    (h4 : getIdx L 4 = .ok X) (h5 : getIdx L 5 = .ok Y) (h6 : getIdx L 6 = .ok Z)
+    (hX : pyFloat X = .ok X) (hY : pyFloat Y = .ok Y) (hZ : pyFloat Z = .ok Z)
+    (hc : keywordValues (cs "CHG") L = .ok chg) (hm : keywordValues (cs "MASS") L = .ok mass)
+    (hr : keywordValues (cs "RAD") L = .ok rad) :
+    parseAtomAttributesV3000 L = .ok (some { sym := some sym, z := some z, part := some 0, x := some X, y := some Y, zc := some Z, chg := lastNonZero chg, mass := lastNonZero mass, rad := lastNonZero rad }) := by
+  unfold parseAtomAttributesV3000
+  simp only [h3, ok_bind, hstar, Bool.false_eq_true, if_false, hdet, hz, h4, h5, h6, hX, hY, hZ, hc, hm, hr,
+    beq_self_eq_true, if_true]
+  rfl
+
+
+theorem intRepr_small_len (c : Int) (h1 : -99 ≤ c) (h2 : c ≤ 99) : (intRepr c).length ≤ intMaxStrDigits := by
+  have hn : ∀ n : Nat, n < 100 → (natRepr n).length ≤ 2 := by
+    intro n hn
+    rw [LineM.natRepr_eq, Nat.length_toDigits_le_iff (by decide) (by decide)]
+    exact hn
+  cases c with
+  | ofNat n =>
+    have h2' : (n : Int) ≤ 99 := h2
+    have := hn n (by omega)
+    simp only [intRepr, intMaxStrDigits]; show (natRepr n).length ≤ 4300; omega
+  | negSucc n =>
+    have h1' : -99 ≤ -((n : Int) + 1) := by rw [← Int.negSucc_eq]; exact h1
+    have := hn (n + 1) (by omega)
+    simp only [intRepr, List.length_cons, intMaxStrDigits]; omega
+
+theorem atomLine_eq (n : Node) (sym : Str) (hsym : n.attrs.sym = some sym)
+    (hchg : ∀ c, n.attrs.chg = some c → c ≠ 0 ∧ -15 ≤ c ∧ c ≤ 15)
+    (hrad : ∀ r, n.attrs.rad = some r → 0 < r ∧ r ≤ 3)
+    (hmass : ∀ m, n.attrs.mass = some m → 0 < m) :
+    atomLine n = .ok (joinSp ([natRepr (n.id + 1), sym, n.attrs.x.getD zeroCoord, n.attrs.y.getD zeroCoord,
+      n.attrs.zc.getD zeroCoord, ['0']] ++ optTok (cs "CHG") n.attrs.chg ++ optTok (cs "RAD") n.attrs.rad
+      ++ optTok (cs "MASS") n.attrs.mass)) := by
+  have h1 : ∀ c, n.attrs.chg = some c → (c != 0 && decide (-15 ≤ c) && decide (c ≤ 15)) = true := by
+    intro c hc; obtain ⟨h0, h1, h2⟩ := hchg c hc; simp [h0, h1, h2]
+  have h2 : ∀ r, n.attrs.rad = some r → (r != 0 && decide (0 < r) && decide (r ≤ 3)) = true := by
+    intro r hc; obtain ⟨h1, h2⟩ := hrad r hc
+    have h0 : r ≠ 0 := by omega
+    simp [h0, h1, h2]
+  have h3 : ∀ m, n.attrs.mass = some m → (m != 0 && decide (m > 0)) = true := by
+    intro m hc; have h1 := hmass m hc
+    have h0 : m ≠ 0 := by omega
+    simp [h0, h1]
+  clear hchg hrad hmass
+  unfold atomLine
+  simp only [hsym, Option.elim, ok_bind]
+  cases hc : n.attrs.chg <;> cases hr : n.attrs.rad <;> cases hm : n.attrs.mass <;>
+    simp only [hc, hr, hm, Option.some.injEq, forall_eq', reduceCtorEq, false_imp_iff, implies_true] at h1 h2 h3 <;>
+    simp [*, optTok, joinSp, cs, pure, Except.pure]
+
+end LineM
+open LineM
+
 /-- **Writer atom line → reader.**  For a node whose symbol is an element symbol (not D or T), whose
 coordinate tokens are blank-free float texts, the V3000 reader decodes the line the writer produces to
 exactly the written data: symbol, atomic number, coordinates, and charge / radical / mass whenever they
@@ -396,6 +718,102 @@ theorem atomLine_roundtrip (n : Node) (sym : Str) (hsym : n.attrs.sym = some sym
                     x := some (n.attrs.x.getD zeroCoord), y := some (n.attrs.y.getD zeroCoord),
                     zc := some (n.attrs.zc.getD zeroCoord),
                     chg := n.attrs.chg, rad := n.attrs.rad, mass := n.attrs.mass }) := by
-  sorry
+  have _ := hid
+  obtain ⟨z, hz, _, _⟩ := atomicNumberOf_elementSyms sym hel
+  -- abbreviations
+  generalize hX : n.attrs.x.getD zeroCoord = X at hx ⊢
+  generalize hY : n.attrs.y.getD zeroCoord = Y at hx ⊢
+  generalize hZ : n.attrs.zc.getD zeroCoord = Z at hx ⊢
+  obtain ⟨hXt, hXf⟩ := hx X (by simp)
+  obtain ⟨hYt, hYf⟩ := hx Y (by simp)
+  obtain ⟨hZt, hZf⟩ := hx Z (by simp)
+  have hline := atomLine_eq n sym hsym hchg hrad (fun m hm => (hmass m hm).1)
+  rw [hX, hY, hZ] at hline
+  -- token facts
+  have kC : KeyC (cs "CHG") := Or.inl rfl
+  have kM : KeyC (cs "MASS") := Or.inr (Or.inl rfl)
+  have kR : KeyC (cs "RAD") := Or.inr (Or.inr rfl)
+  have hidx := natRepr_shape' (n.id + 1)
+  have hidxTok : IsToken (natRepr (n.id + 1)) := ⟨hidx.1, fun c hc => isDigit_not_space (hidx.2.1 c hc)⟩
+  have hsok : symOk sym = true := List.all_eq_true.1 elementSyms_symOk sym hel
+  simp only [symOk, Bool.and_eq_true, bne_iff_ne, ne_eq, List.all_eq_true, Bool.not_eq_true'] at hsok
+  obtain ⟨⟨⟨⟨⟨⟨⟨hs1, hs2⟩, hs3⟩, hs4⟩, hs5⟩, hs6⟩, hs7⟩, hs8⟩ := hsok
+  have hsymTok : IsToken sym := ⟨hs1, hs2⟩
+  have hzeroTok : IsToken ['0'] := ⟨by simp, by decide⟩
+  let base : List Str := [natRepr (n.id + 1), sym, X, Y, Z, ['0']]
+  let toks : List Str := base ++ optTok (cs "CHG") n.attrs.chg ++ optTok (cs "RAD") n.attrs.rad
+      ++ optTok (cs "MASS") n.attrs.mass
+  have htoks : ∀ t ∈ toks, IsToken t := by
+    intro t ht
+    simp only [toks, base, List.mem_append, List.mem_cons, List.not_mem_nil, or_false] at ht
+    rcases ht with ((((rfl | rfl | rfl | rfl | rfl | rfl) | h) | h) | h)
+    · exact hidxTok
+    · exact hsymTok
+    · exact hXt
+    · exact hYt
+    · exact hZt
+    · exact hzeroTok
+    · exact optTok_isToken kC _ t h
+    · exact optTok_isToken kR _ t h
+    · exact optTok_isToken kM _ t h
+  have hL : tokenizeLine (v30Prefix ++ joinSp toks) = cs "M" :: cs "V30" :: toks :=
+    tokenizeLine_v30 toks (by simp [toks, base]) htoks
+  -- no base token is a keyword token
+  have hbase : ∀ key, KeyC key → ∀ t ∈ cs "M" :: cs "V30" :: base, Miss key t := by
+    intro key hk t ht
+    simp only [base, List.mem_cons, List.not_mem_nil, or_false] at ht
+    rcases ht with rfl | rfl | rfl | rfl | rfl | rfl | rfl | rfl
+    · exact miss_M hk
+    · exact miss_of_head hk _ (by simp [cs])
+    · apply miss_of_head hk
+      cases hd : natRepr (n.id + 1) with
+      | nil => simp
+      | cons c r =>
+        have := (isDigit_iff c).1 (hidx.2.1 c (by simp [hd]))
+        simp only [List.head?_cons, ne_eq, Option.some.injEq]
+        refine ⟨?_, ?_, ?_⟩ <;> (rintro rfl; revert this; decide)
+    · rcases hk with rfl | rfl | rfl
+      · rw [cs_CHG]; exact hs6
+      · rw [cs_MASS]; exact hs7
+      · rw [cs_RAD]; exact hs8
+    · exact miss_of_head hk _ (float_head hXt hXf)
+    · exact miss_of_head hk _ (float_head hYt hYf)
+    · exact miss_of_head hk _ (float_head hZt hZf)
+    · exact miss_of_head hk _ (by simp)
+  have hsplit : cs "M" :: cs "V30" :: toks = (cs "M" :: cs "V30" :: base) ++ optTok (cs "CHG") n.attrs.chg
+      ++ optTok (cs "RAD") n.attrs.rad ++ optTok (cs "MASS") n.attrs.mass := by
+    simp [toks]
+  have neCM : (cs "CHG").head? ≠ (cs "MASS").head? := by rw [cs_CHG, cs_MASS]; decide
+  have neCR : (cs "CHG").head? ≠ (cs "RAD").head? := by rw [cs_CHG, cs_RAD]; decide
+  have neMR : (cs "MASS").head? ≠ (cs "RAD").head? := by rw [cs_MASS, cs_RAD]; decide
+  have hkc : keywordValues (cs "CHG") (cs "M" :: cs "V30" :: toks) = .ok n.attrs.chg.toList := by
+    rw [keywordValues_eq, hsplit]
+    simp only [kvFrom_append, kvFrom_miss _ _ _ (hbase _ kC), ok_bind,
+      kvFrom_optTok_same kC _ _ (fun c hc => intRepr_small_len c (by have := hchg c hc; omega) (by have := hchg c hc; omega)),
+      kvFrom_optTok_other kC kR neCR, kvFrom_optTok_other kC kM neCM, List.nil_append]
+  have hkr : keywordValues (cs "RAD") (cs "M" :: cs "V30" :: toks) = .ok n.attrs.rad.toList := by
+    rw [keywordValues_eq, hsplit]
+    simp only [kvFrom_append, kvFrom_miss _ _ _ (hbase _ kR), ok_bind,
+      kvFrom_optTok_same kR _ _ (fun c hc => intRepr_small_len c (by have := hrad c hc; omega) (by have := hrad c hc; omega)),
+      kvFrom_optTok_other kR kC neCR.symm, kvFrom_optTok_other kR kM neMR.symm, List.nil_append]
+  have hkm : keywordValues (cs "MASS") (cs "M" :: cs "V30" :: toks) = .ok n.attrs.mass.toList := by
+    rw [keywordValues_eq, hsplit]
+    simp only [kvFrom_append, kvFrom_miss _ _ _ (hbase _ kM), ok_bind,
+      kvFrom_optTok_same kM _ _ (fun c hc => (hmass c hc).2),
+      kvFrom_optTok_other kM kC neCM.symm, kvFrom_optTok_other kM kR neMR, List.nil_append]
+  have hpf : ∀ t, IsToken t → pyFloatOk t = true → pyFloat t = .ok t := by
+    intro t ht hf
+    simp only [pyFloat, hf, if_true, strip_of_all t ht.2]
+  have hdet : detectHydrogenIsotopes sym = (sym, 0) := by
+    simp only [detectHydrogenIsotopes, beq_iff_eq, hs4, hs5, if_false]
+  have hstar : (sym == ['*']) = false := by simpa using hs3
+  refine ⟨joinSp toks, z, hline, hz, ?_, ?_⟩
+  · rw [hL]; rfl
+  · rw [hL]
+    have := parse_eval (cs "M" :: cs "V30" :: toks) sym X Y Z z _ _ _ rfl hstar hdet hz rfl rfl rfl
+      (hpf X hXt hXf) (hpf Y hYt hYf) (hpf Z hZt hZf) hkc hkm hkr
+    rw [this, lastNonZero_toList n.attrs.chg (fun c hc => (hchg c hc).1),
+      lastNonZero_toList n.attrs.rad (fun c hc => by have := hrad c hc; omega),
+      lastNonZero_toList n.attrs.mass (fun c hc => by have := hmass c hc; omega)]
 
 end Tucan
